@@ -157,8 +157,13 @@ def store(ctx):
                     from_vals = dv.has_call("super().apply") or any("apply" in c for c in dv.calls)
                     transposed = dv.has_call("transpose") or any(isinstance(e, ast.Attribute) and e.attr == "T" for e in dv.exprs)
                     in_loop = any(d.kind == "for" for d in rd.reaching(t.value.id, nd.id))
-                    ok = from_reg and from_vals and transposed and in_loop
+                    # column k of the outcome belongs to reg[k]: the register sequence is zipped as it was given, not re-ordered
+                    reordered = dr.has_call("sorted", "reversed", "sort", "np.sort", "set", "frozenset") or \
+                        any(isinstance(e, ast.Subscript) and isinstance(e.slice, ast.Slice) and e.slice.step is not None for e in dr.exprs)
+                    ok = from_reg and from_vals and transposed and in_loop and not reordered
                     why = [] if ok else [w for w, c in (("register not from zip over reg", from_reg),
+                                                        ("the register is re-ordered before it is paired with the outcome columns "
+                                                         "(the backend returns the columns in the order of reg)", not reordered),
                                                         ("value not from the backend outcome", from_vals),
                                                         ("outcome array not transposed (rows are shots)", transposed),
                                                         ("not in a loop over the register", in_loop)) if not c]
